@@ -110,7 +110,7 @@ Theorem write_loop_step cx f s hops buf rest ret w :
   buf <> [] ->
   let t := get_tcp w s in
   let k := Z.to_nat (Z.min (Z.of_nat (length buf)) (t_mss t)) in
-  let p := mk_packet PPayload 0 (firstn k buf) (t_bound t) 40 hops None (t_next_out t) (Some (DTcp s)) in
+  let p := mk_packet PPayload 0 (firstn k buf) (t_bound t) 40 hops None (t_next_out t) (Some (DTcp s (fwd_of t))) in
   let w1 := set_tcp w s (t <| t_next_out := t_next_out t + 1 |>) in
   write_loop cx (S f) s hops (buf :: rest) ret w =
     (let (w2, c1) := tcp_send_packet cx s p w1 in
@@ -315,3 +315,27 @@ Proof. unfold reset_fwd, set_sink. simpl. apply mget_mset_eq. Qed.
 Theorem drop_after_close_is_ignored v s p w :
   d11a_drop_guard v = true -> t_chan (get_tcp w s) = None -> tcp_packet_dropped v s p w = (w, []).
 Proof. intros D C. unfold tcp_packet_dropped. rewrite C, D. reflexivity. Qed.
+
+(* the drop callback of a segment whose socket has been closed or destroyed
+   since it was sent (its forwarder is detached) does nothing (after the repair) *)
+Theorem drop_of_a_dead_socket_vanishes v s f p w :
+  d11b_drop_via_fwd v = true -> p_drop p = Some (DTcp s f) ->
+  mget SNone (w_sinks w) f = SFwd None -> run_drop v p w = (w, []).
+Proof. intros D P F. unfold run_drop. rewrite P, D, F. reflexivity. Qed.
+
+(* ... and before the repair it went through the socket object itself *)
+Theorem drop_of_a_destroyed_socket_dangles v s f p w :
+  d11b_drop_via_fwd v = false -> p_drop p = Some (DTcp s f) -> In f (w_deadfwd w) ->
+  run_drop v p w = (w, [KLog (TAG_FUEL, [6])]).
+Proof.
+  intros D P F. unfold run_drop. rewrite P, D.
+  assert (E : existsb (Z.eqb f) (w_deadfwd w) = true).
+  { apply existsb_exists. exists f. split; [exact F | apply Z.eqb_refl]. }
+  rewrite E. reflexivity.
+Qed.
+
+(* a live socket still hears of its drops *)
+Theorem drop_of_a_live_socket_is_reported v s f p w :
+  d11b_drop_via_fwd v = true -> p_drop p = Some (DTcp s f) ->
+  mget SNone (w_sinks w) f = SFwd (Some (OTcp s)) -> run_drop v p w = tcp_packet_dropped v s p w.
+Proof. intros D P F. unfold run_drop. rewrite P, D, F. reflexivity. Qed.
